@@ -243,16 +243,26 @@ class Grid:
 
 _CTX = None
 TASK_CAP = 1500  # failing cases kept per clause per shard (simplest first); the rest are counted
+MIN_CAP = 4000  # distinct minimal witnesses kept per shard when shrinking happens in the worker
+
+
+_SHRINKER = None
 
 
 def _worker(task):
-    grid, evaluate = _CTX
+    global _SHRINKER
+    grid, evaluate = _CTX[0], _CTX[1]
+    shrink = _CTX[2] if len(_CTX) > 2 else None
+    if shrink is not None and (_SHRINKER is None or _SHRINKER[0] is not shrink):
+        _SHRINKER = (shrink, core.Shrinker(shrink[1], shrink[2]))
+    minimal = {}
     n = 0
     fails = []
     tags = Counter()
     outs = set()
     sample = None
     percl = {}
+    over = {}
     for case in grid.cases(task):
         n += 1
         f, tg, ok = evaluate(case)
@@ -266,23 +276,35 @@ def _worker(task):
             for (c, e, g) in f:
                 k = percl.get(c, 0)
                 percl[c] = k + 1
-                if k < TASK_CAP:
+                if shrink is not None:
+                    wmin, res = _SHRINKER[1].shrink(c, shrink[0](case), e, g)
+                    mk = (c, core.canon_json(wmin))
+                    if mk not in minimal and len(minimal) < MIN_CAP:
+                        minimal[mk] = (c, wmin, res[0], res[1])
+                    elif mk not in minimal:
+                        over[c] = over.get(c, 0) + 1
+                elif k < TASK_CAP:
                     fails.append((c, case, e, g))
+    if shrink is not None:
+        return n, list(minimal.values()), tags, outs, sample, over, percl
     overflow = {c: k - TASK_CAP for c, k in percl.items() if k > TASK_CAP}
-    return n, fails, tags, outs, sample, overflow
+    return n, fails, tags, outs, sample, overflow, percl
 
 
-def run(chk, grid, d, evaluate, extra=None, target=60000):
-    """Explore grid with deviation bound d; returns (failures, tags)."""
+def run(chk, grid, d, evaluate, extra=None, target=60000, shrink=None):
+    """Explore grid with deviation bound d; returns (failures, tags).
+    shrink=(wit_fn, simplify_fn, fails_fn): failing cases are shrunk to minimal witnesses inside the
+    workers (no cap on the number of failing cases); the returned list then holds minimal witnesses
+    (clause, witness, expected, got) which are also reported to chk."""
     global _CTX
-    _CTX = (grid, evaluate)
+    _CTX = (grid, evaluate) if shrink is None else (grid, evaluate, shrink)
     tasks = grid.tasks(d, target)
     # replay determinism: the first shard is executed twice and must agree byte for byte
     if tasks:
         a = _worker(tasks[0])
         b = _worker(tasks[0])
-        if core.canon_json([a[0], [(f[0], f[1]) for f in a[1]], sorted(a[2].items())]) != core.canon_json(
-            [b[0], [(f[0], f[1]) for f in b[1]], sorted(b[2].items())]
+        if core.canon_json([a[0], sorted(core.canon_json([f[0], f[1]]) for f in a[1]), sorted(a[2].items())]) != core.canon_json(
+            [b[0], sorted(core.canon_json([f[0], f[1]]) for f in b[1]), sorted(b[2].items())]
         ):
             raise core.Harness("non-deterministic evaluation in grid " + grid.name)
     total = 0
@@ -290,8 +312,10 @@ def run(chk, grid, d, evaluate, extra=None, target=60000):
     tags = Counter()
     outs = set()
     overflow = Counter()
-    for n, f, tg, o, sample, ov in core.pmap(_worker, tasks, chk.seed):
+    counts = Counter()
+    for n, f, tg, o, sample, ov, pc in core.pmap(_worker, tasks, chk.seed):
         overflow.update(ov)
+        counts.update(pc)
         total += n
         failures.extend(f)
         tags.update(tg)
@@ -305,12 +329,23 @@ def run(chk, grid, d, evaluate, extra=None, target=60000):
         chk.sample({"grid": grid.name, "case": grid.default_case()})
     stats = {"cases": total, "d": d, "slots": len(grid.slots), "distinct_outputs": len(outs),
              "failing": len(failures), "tags": dict(sorted(tags.items()))}
+    stats["failing"] = sum(counts.values())
+    if shrink is not None:
+        dedup = {}
+        for m in failures:
+            dedup.setdefault((m[0], core.canon_json(m[1])), m)
+        failures = list(dedup.values())
+        stats["minimal_witnesses"] = len(failures)
+        core.report_minimal(chk, failures, counts)
+        for m in failures:
+            chk.overflow_examples.setdefault(m[0], m)
     if overflow:
         stats["uncollected_failures"] = dict(overflow)
         ovf = chk.cov.setdefault("overflow", {})
         for c, k in overflow.items():
             ovf[c] = ovf.get(c, 0) + k
-            chk.clause(c, failed=k)
+            if shrink is None:
+                chk.clause(c, failed=k)
     if extra:
         stats.update(extra)
     chk.cov["parts"][grid.name] = stats
